@@ -309,6 +309,7 @@ func (st *tstate) trace(v ssa.Value, path []string, c *tctx) {
 		}
 	case *ssa.BinOp:
 		st.o.Ops["op"+x.Op.String()] = true
+		st.o.Values[x] = true
 		st.trace(x.X, nil, c)
 		st.trace(x.Y, nil, c)
 	case *ssa.Phi:
@@ -394,6 +395,7 @@ func (st *tstate) traceLoad(addr ssa.Value, path []string, c *tctx) {
 		return
 	}
 	st.seen[key] = true
+	st.o.Values[addr] = true
 	switch a := addr.(type) {
 	case *ssa.Alloc:
 		n := st.allocContents(a, a, nil, path, c)
